@@ -307,8 +307,8 @@ def run_property(prop, tier, seed, cases, mode, functions_encoded, bounds, extra
         "known_findings_hit": {k: n for k, (_, n) in known_hits.items()},
         "findings_not_reproduced": [(f.to_json()["case"], why) for f, why in not_repro][:10],
     }
-    if side_results:
-        coverage["side_conditions"] = side_results
+    if side_results or getattr(stats, "side", None):
+        coverage["side_conditions"] = side_results or stats.side
     report.write_evidence(prop, tier, seed, level, coverage, wall, COMMON_ASSUMPTIONS + list(extra_assumptions), violations)
     print("property=%s tier=%s projects=%d loaded=%d keys=%d queries=%d unsat=%d sat=%d twins=%d/%d inconclusive=%d undecided=%d solver_s=%.2f wall_s=%.1f" % (
         prop, tier, stats.projects, stats.projects_ok, stats.keys, stats.queries, stats.unsat, stats.sat, stats.twins_sat, stats.twins,
